@@ -47,6 +47,12 @@ Section Datatype.
     mkDt (k_import j) (opid_sync (opid_new c) l) [] (mkCp sseq 0)
          (k_export k_init) (opid_new c) [RRemote (OSnap (mkOpid 0 l nil_uid 0))].
 
+  (* SetMetaAndSnapshot called from outside (restoring an exported datatype, the server's rebuild): state and operation
+     id are replaced, buffer and checkpoint stay, and the imported state becomes the point a failed transaction comes
+     back to, with nothing to replay (since the repair "fix: importing meta and snapshot takes the rollback point") *)
+  Definition dt_import (d : dt) (j : J) (i : opid) : dt :=
+    mkDt (k_import j) i (d_buf d) (d_cp d) (k_export (k_import j)) i [].
+
   (* ---- one local sentence (SentenceInTx + executeLocalBase), outside or inside a user transaction.
      txbuf = the operations of the open transaction (None: no user transaction open) *)
   Inductive outcome := Done (r : ret) | Failed | Panicked.
